@@ -1119,18 +1119,23 @@ class ChannelFileRead(ChannelFile):
 
     def readline(self) -> str:
         if self._buffer is not None:
-            i = self._buffer.find("\n")
+            i = self._buffer.find(self._newline(self._buffer))
             if i != -1:
                 return self.read(i + 1)
             line = self.read(len(self._buffer) + 1)
         else:
             line = self.read(1)
-        while line and line[-1] != "\n":
+        while line and not line.endswith(self._newline(line)):
             c = self.read(1)
             if not c:
                 break
             line += c
         return line
+
+    @staticmethod
+    def _newline(data):
+        # items (and hence the buffer) are either all str or all bytes
+        return b"\n" if isinstance(data, bytes) else "\n"
 
 
 class BaseGateway:
